@@ -29,7 +29,7 @@ func c02Pool() []poolVal {
 		{"(7 & 3)", "numbitwise", ""}, {"(1 << 40)", "numbitwise", ""}, {"(5 | 0)", "numbitwise", ""},
 		{`""`, "str-empty-lit", ""}, {`("" + "")`, "str-empty-cat", ""},
 		{`"a"`, "str-lit", ""}, {`("" + "a")`, "str-cat", ""}, {`"abc"`, "str-lit", ""}, {`("ab" + "c")`, "str-cat", ""},
-		{`"5"`, "str-numeric-lit", ""}, {`("" + "5")`, "str-numeric-cat", ""}, {`"০৫"`, "str-numeric-bn", ""}, {`"a b"`, "str-lit", ""},
+		{`"5"`, "str-numeric-lit", ""}, {`("" + "5")`, "str-numeric-cat", ""}, {`"০৫"`, "str-numeric-bn", ""}, {`"a b"`, "str-lit", ""}, {`"%"`, "str-percent", ""}, {`"%d%s"`, "str-percent", ""},
 		{"[]", "arr", ""}, {"[1]", "arr", ""}, {"[1, 2]", "arr", ""},
 		{"{}", "obj", ""}, {"{k: 1}", "obj", ""},
 		{"fq", "fn", Fun("fq", "", "") + "\n"}, {B["len"], "builtin", ""}, {B["abs"], "builtin", ""},
